@@ -80,6 +80,9 @@ type EnvConfig struct {
 	ActivationEpoch      uint32
 	InitialEpoch         *uint32 // if non-nil, confirmed right after construction
 	NoPayableHandler     bool    // leave the factory's default (refuse-all) handler in place
+	// ChangesBeforeCreation are gas schedule changes the factory receives after its construction
+	// and before it creates the function container
+	ChangesBeforeCreation []Schedule
 }
 
 // ShardEnv is the real factory + container of one shard, bound to the Env's current execution.
@@ -170,6 +173,9 @@ func NewEnv(cfg EnvConfig) (*Env, error) {
 		})
 		if err != nil {
 			return nil, err
+		}
+		for _, ch := range cfg.ChangesBeforeCreation {
+			f.GasScheduleChange(ch.Clone())
 		}
 		c, err := f.CreateBuiltInFunctionContainer()
 		if err != nil {
